@@ -89,7 +89,65 @@ impl Ent {
     }
 }
 
-type Mail = Rc<RefCell<BTreeMap<(u32, Slot), Ent>>>;
+#[derive(Default)]
+pub struct MailBox {
+    gifts: BTreeMap<(u32, Slot), Ent>,
+    waiters: Vec<std::task::Waker>,
+    /// clients still running their program / currently blocked in `Take`
+    active: usize,
+    waiting: usize,
+    /// set by the run loop when the system is quiescent with clients blocked in `Take`
+    give_up: bool,
+}
+type Mail = Rc<RefCell<MailBox>>;
+
+/// `Take` waits for its gift, but gives up as soon as nobody is left who could still give it
+/// (all other clients finished, or all of them are waiting in a `Take` themselves).
+struct TakeFut {
+    mail: Mail,
+    key: (u32, Slot),
+    counted: bool,
+}
+impl Future for TakeFut {
+    type Output = Option<Ent>;
+    fn poll(mut self: Pin<&mut Self>, cx: &mut TCx<'_>) -> Poll<Option<Ent>> {
+        let key = self.key;
+        let mut m = self.mail.borrow_mut();
+        if let Some(e) = m.gifts.remove(&key) {
+            if self.counted {
+                m.waiting -= 1;
+            }
+            drop(m);
+            self.counted = false;
+            return Poll::Ready(Some(e));
+        }
+        if !self.counted {
+            m.waiting += 1;
+        }
+        if m.waiting >= m.active || m.give_up {
+            // nobody can give any more: everybody gives up
+            m.waiting -= 1;
+            let ws = std::mem::take(&mut m.waiters);
+            drop(m);
+            self.counted = false;
+            for w in ws {
+                w.wake();
+            }
+            return Poll::Ready(None);
+        }
+        m.waiters.push(cx.waker().clone());
+        drop(m);
+        self.counted = true;
+        Poll::Pending
+    }
+}
+impl Drop for TakeFut {
+    fn drop(&mut self) {
+        if self.counted {
+            self.mail.borrow_mut().waiting -= 1;
+        }
+    }
+}
 
 thread_local! {
     static RETAINED: RefCell<Vec<Ent>> = const { RefCell::new(Vec::new()) };
@@ -703,12 +761,18 @@ async fn exec(cx: &mut ClientCx, op: &Op) -> Res {
             if matches!(e.h, H::Empty) {
                 return Res::Skipped;
             }
-            let old = cx.mail.borrow_mut().insert((*client, *to), e);
+            let (old, ws) = {
+                let mut m = cx.mail.borrow_mut();
+                (m.gifts.insert((*client, *to), e), std::mem::take(&mut m.waiters))
+            };
             drop(old);
+            for w in ws {
+                w.wake();
+            }
             Res::Ok
         }
         Op::Take { to } => {
-            let e = cx.mail.borrow_mut().remove(&(cx.id, *to));
+            let e = TakeFut { mail: cx.mail.clone(), key: (cx.id, *to), counted: false }.await;
             match e {
                 Some(e) => {
                     cx.put(*to, e.h, e.target);
@@ -883,6 +947,14 @@ async fn client_main(id: u32, ops: Vec<Op>, mail: Mail) {
     // keep the handles alive until the epilogue drops them
     let slots = std::mem::take(&mut cx.slots);
     RETAINED.with(|r| r.borrow_mut().extend(slots));
+    let ws = {
+        let mut m = cx.mail.borrow_mut();
+        m.active = m.active.saturating_sub(1);
+        std::mem::take(&mut m.waiters)
+    };
+    for w in ws {
+        w.wake();
+    }
     log(Ev::ClientDone { client: id });
 }
 
@@ -995,7 +1067,8 @@ pub fn run_scenario(sc: &Scenario) -> RunOutput {
         CANCELS.with(|c| *c.borrow_mut() = cancels);
 
         // ---- setup program (alone with the actors it spawns)
-        let mail: Mail = Rc::new(RefCell::new(BTreeMap::new()));
+        let mail: Mail = Rc::new(RefCell::new(MailBox::default()));
+        mail.borrow_mut().active = 1;
         if !sc.setup.is_empty() {
             let ok = drive_task(client_main(SETUP_CLIENT, sc.setup.clone(), mail.clone()), PHASE1_CAP);
             if !ok {
@@ -1006,6 +1079,7 @@ pub fn run_scenario(sc: &Scenario) -> RunOutput {
         // ---- clients
         let n_clients = sc.clients.len();
         let done_count = Rc::new(std::cell::Cell::new(0usize));
+        mail.borrow_mut().active = n_clients;
         log(Ev::Phase(Phase::ClientsStarted));
         for (i, c) in sc.clients.iter().enumerate() {
             let ops = c.ops.clone();
@@ -1026,9 +1100,31 @@ pub fn run_scenario(sc: &Scenario) -> RunOutput {
         while done_count.get() < n_clients {
             apply_pending_cancels();
             if simrt::step() == simrt::Step::Quiescent {
-                quiescent = true;
-                break;
+                // clients blocked in `Take` for a gift that will never come give up (a generator
+                // artefact, not a library hang)
+                let ws = {
+                    let mut m = mail.borrow_mut();
+                    if m.waiting > 0 {
+                        m.give_up = true;
+                        Some(std::mem::take(&mut m.waiters))
+                    } else {
+                        None
+                    }
+                };
+                match ws {
+                    Some(ws) => {
+                        for w in ws {
+                            w.wake();
+                        }
+                        continue;
+                    }
+                    None => {
+                        quiescent = true;
+                        break;
+                    }
+                }
             }
+            mail.borrow_mut().give_up = false;
             n += 1;
             if n >= PHASE1_CAP {
                 outcome.cap_phase = 1;
@@ -1067,7 +1163,7 @@ pub fn run_scenario(sc: &Scenario) -> RunOutput {
         if sc.drop_handles {
             let held: Vec<Ent> = RETAINED.with(|r| std::mem::take(&mut *r.borrow_mut()));
             drop(held);
-            let left = std::mem::take(&mut *mail.borrow_mut());
+            let left = std::mem::take(&mut mail.borrow_mut().gifts);
             drop(left);
         }
         log(Ev::Phase(Phase::HandlesDropped));
@@ -1097,7 +1193,7 @@ pub fn run_scenario(sc: &Scenario) -> RunOutput {
         // handles that were never dropped (drop_handles == false) go now, before teardown
         let held: Vec<Ent> = RETAINED.with(|r| std::mem::take(&mut *r.borrow_mut()));
         drop(held);
-        let left = std::mem::take(&mut *mail.borrow_mut());
+        let left = std::mem::take(&mut mail.borrow_mut().gifts);
         drop(left);
         with_h(|h| h.weak.clear());
         (st, simrt::decisions(), simrt::trace_hash(), simrt::task_events(), alive)
